@@ -632,6 +632,22 @@ fn cfg_from(v: &Value) -> Cfg {
 fn replay(ctx: &Ctx, path: &std::path::Path) -> i32 {
     let doc: Value = serde_json::from_str(&std::fs::read_to_string(path).expect("replay file")).expect("json");
     let r = &doc["replay"];
+    if !r["ids"].is_null() {
+        // the identifier sweep is deterministic and small: rerun it and report the class named in the file
+        let mut all = Report::new();
+        if let Err(e) = super::c15ids::run(&mut all) {
+            eprintln!("MACHINERY: {}", e);
+            return 2;
+        }
+        let mut report = Report::new();
+        for v in all.violations.values() {
+            if Some(v.signature.as_str()) == doc["signature"].as_str() {
+                println!("  {} {}", v.signature, v.what);
+                report.violation(v.signature.clone(), v.what.clone(), v.replay.clone());
+            }
+        }
+        return common::finish(ctx, report, Evidence::new("model_checking"));
+    }
     let cfg = cfg_from(&r["cfg"]);
     let prefix: Vec<usize> = r["choices"].as_array().unwrap().iter().map(|c| c.as_u64().unwrap() as usize).collect();
     std::env::set_var("MC_SHOW_PANICS", "1");
@@ -746,7 +762,26 @@ pub fn run(ctx: &Ctx) -> i32 {
         classes.extend(a.2.iter().cloned());
         per.push(json!({"cfg": cfg_json(&cfg), "executions": stats.executions, "choice_points": stats.choice_points, "distinct_observations": stats.distinct_outcomes, "max_schedule_len": stats.max_trace_len, "outcome_classes": a.2, "capped": stats.capped}));
     }
+    let ids = if nonce {
+        match super::c15ids::run(&mut report) {
+            Ok(s) => Some(s),
+            Err(e) => {
+                eprintln!("MACHINERY: {}", e);
+                return 2;
+            }
+        }
+    } else {
+        None
+    };
     let mut ev = Evidence::new("model_checking");
+    if let Some(s) = &ids {
+        if s.skips_observed == 0 || s.wraps_observed == 0 {
+            eprintln!("MACHINERY: vacuous identifier sweep (skips {}, wraps {})", s.skips_observed, s.wraps_observed);
+            return 2;
+        }
+        ev.set("identifier_uniqueness", json!({"session_id_allocations": s.session_allocations, "exchange_id_allocations": s.exchange_allocations, "allocations_that_had_to_skip_a_live_id": s.skips_observed, "allocations_across_the_16_bit_wrap": s.wraps_observed,
+            "rule": "for every set of live identifiers of a catalog (none, single, runs, both sides of the 16-bit wrap, a nearly full table) and every allocator position next to each live identifier and next to the wrap: identifiers are allocated through the real paths (Sessions::get_next_sess_id, Exchange::initiate), made live and allocated again until the table is full; never the identifier of a live session / live locally initiated exchange, never session id 0"}));
+    }
     ev.set("states", json!(outcomes))
         .set("transitions", json!(points))
         .set("traces_validated_against_impl", json!(execs))
